@@ -30,8 +30,15 @@ ASSUMPTIONS = [
     "ControllerApplication is constructed with the zigpy.util.Requests shim (vlib/zshim.py)",
 ]
 
-T_OP = 10.0
-T_CMD = 10.0
+from vlib import cfg
+
+T_OP = cfg.net_ops_timeout()  # "the operation timeout" of form / leave
+T_UP = cfg.net_up_timeout()  # ... and of bringing the network up
+
+
+def t_op(kind):
+    return T_UP if kind == "ensure" else T_OP
+T_CMD = cfg.cmd_timeout()
 MATCH = {"form": "NETWORK_UP", "leave": "NETWORK_DOWN", "ensure": "NETWORK_UP"}
 
 
@@ -148,12 +155,12 @@ def expected(op):
     elif resp != "OK":
         end = t_r
         out = [({"form": "FormationFailure", "leave": "EzspError"}.get(kind) or ("NetworkNotFormed" if resp == "NOT_JOINED" else "ControllerError"), None)]
-    elif first is not None and first < T_OP:
+    elif first is not None and first < t_op(kind):
         end, out = max(first, t_r), [("ok", None)]
-    elif first is not None and first < t_r + T_OP:
+    elif first is not None and first < t_r + t_op(kind):
         end, out = max(first, t_r), [("ok", None), ("TimeoutError", None)]
     else:
-        end, out = t_r + T_OP, [("TimeoutError", None)]
+        end, out = t_r + t_op(kind), [("TimeoutError", None)]
     if cancel is not None and cancel < end:
         return [("cancelled", None)]
     if cancel is not None and cancel <= end + 1e-6:
@@ -249,7 +256,7 @@ async def scenario(loop, plan, r):
             # cancellation is relative to the issue instant (the request is seen ~immediately)
             delay = op["cancel"] + (0.001 if kind == "ensure" and not op.get("joined") else 0)
             loop.call_later(delay, task.cancel)
-        last_ev = max([ev[0] for ev in op["events"]] + [op["t_r"], 0]) + T_OP + T_CMD + 5
+        last_ev = max([ev[0] for ev in op["events"]] + [op["t_r"], 0]) + max(T_OP, T_UP) + T_CMD + 5
         await asyncio.wait([task], timeout=last_ev + 30)
         if not task.done():
             exp = expected(op)
@@ -301,7 +308,7 @@ async def scenario(loop, plan, r):
                 r.bad(sig, f"{where}: got {got}, acceptable {exp}; plan {plan}")
                 return
             if got[0] == "TimeoutError" and op["resp"] != "none" and kind not in ("escan", "ascan"):
-                lo, hi = T_OP, op["t_r"] + T_OP
+                lo, hi = t_op(kind), op["t_r"] + t_op(kind)
                 if not (lo - 1e-6 <= end_rel <= hi + 1e-6):
                     r.bad("C17:timeout-at-wrong-time", f"{where}: ended {end_rel:.4f}s after the request, window [{lo}, {hi}]")
                     return
